@@ -37,6 +37,7 @@ func runC11(c *Ctx) {
 	c.withOnly(map[string]string{"C16.1-registration-target": "C11.4-unpausing-is-noticed"}, func(s string) bool { return !strings.Contains(strings.ToLower(s), "pod") }, "C11.4-set-informer-handlers", 3, func() { runC16(c) })
 	// "adopts ... nothing" while the set is being deleted: the uncached recheck runs once per sync, and what it found is what
 	// every adoption attempt of that sync is told -- not only the first (the shape rule of C10.3, as a clause of this property)
+	c.refusedAdoptionEndsTheSync(sy)
 	c.withOnly(map[string]string{"C10.3-CanAdopt-shape": "C11.1-recheck-result-is-kept-for-every-attempt"}, nil, "C11.1-recheck-shape", 1, c.freshConfirmation)
 	fn, an := c.Analysis(sy)
 	info := sy.Pkg.TypesInfo
@@ -444,3 +445,55 @@ func (c *Ctx) revisionAdoptionGate() {
 }
 
 type effSiteRef struct{ what string }
+
+// refusedAdoptionEndsTheSync: the adoption of orphan revisions starts with the uncached look at the set; when that look
+// finds the set deleted (or gone, or replaced) it says so through its error, and that is the only way the rest of the
+// sync -- which works on the cached copy, where the deletion timestamp may not have arrived yet -- gets to know. So where
+// that call has returned an error, neither the pod claim nor the reconcile proper is reachable.
+func (c *Ctx) refusedAdoptionEndsTheSync(sy *load.FuncInfo) {
+	const rule = "C11.1-refused-adoption-ends-the-sync"
+	adopt := c.Func(load.CtrlPkg, "StatefulSetController.adoptOrphanRevisions")
+	if adopt == nil {
+		return
+	}
+	fn, an := c.Analysis(sy)
+	info := sy.Pkg.TypesInfo
+	n := 0
+	for _, bd := range fn.Bodies() {
+		for _, call := range callsIn(bd, true) {
+			if f := gf.StaticCallee(info, call); f == nil || f.Origin() != adopt.Obj {
+				continue
+			}
+			n++
+			var as *ast.AssignStmt
+			switch st := stmtOf(bd, call).(type) {
+			case *ast.AssignStmt:
+				as = st
+			case *ast.IfStmt:
+				as, _ = st.Init.(*ast.AssignStmt)
+			}
+			if as == nil || len(as.Rhs) != 1 || ast.Unparen(as.Rhs[0]) != ast.Expr(call) {
+				c.Bad(rule, "sync: adoptOrphanRevisions(…)", call.Pos(), "the error of the adoption is not bound to a variable: its refusal cannot stop anything")
+				continue
+			}
+			errF := gf.FNotNil(fn.Term(as.Lhs[len(as.Lhs)-1]))
+			aE := fn.FromAfter(as, an.StateAfter(as).Assume(errF))
+			k := 0
+			for _, bd2 := range fn.Bodies() {
+				for _, t := range callsIn(bd2, true) {
+					f := gf.StaticCallee(info, t)
+					if f == nil || (f.Name() != "syncStatefulSet" && f.Name() != "getPodsForStatefulSet") {
+						continue
+					}
+					k++
+					c.Check(!aE.StateAtExpr(t).Reachable(), rule, fmt.Sprintf("sync: %s after a refused adoption", f.Name()), t.Pos(), "unreachable when adoptOrphanRevisions returned an error",
+						"the sync goes on after adoptOrphanRevisions has returned an error: when that error says the set has just been deleted, pods and claims are still created, deleted or adopted for it on the strength of the stale cached copy")
+				}
+			}
+			if k == 0 {
+				c.Bad(rule, "sync", call.Pos(), "the pod claim and the reconcile are not called from sync directly")
+			}
+		}
+	}
+	c.Floor(rule+"-adoption-calls", n, 1)
+}
